@@ -5,7 +5,7 @@ CONSTANTS ExportMin      \* bodies shorter than this are not exported
 
 MCKindsAll  == {"asg", "aug", "prt", "ret", "rtn", "if", "else", "for", "whl", "brk", "cnt"}
 MCKindsInline == MCKindsAll \cup {"ifa", "wha", "cmp"}
-MCKindsTry == {"try", "exc", "asg", "prt", "if"}
+MCKindsTry == {"try", "exc", "asg", "prt"}
 MCReadsA == {{}, {"a"}}
 MCKindsLoop == {"for", "whl", "else", "brk", "cnt", "prt"}
 MCReadsAll == SUBSET Vars
